@@ -3802,6 +3802,26 @@ pub mod verif {
             })
         }
 
+        /// Visit the bookkeeping of every subscription: the ones in the table and the one
+        /// currently moved out for reporting (no buffers needed).
+        pub fn verif_for_each_live_sub<F>(&self, mut f: F)
+        where
+            F: FnMut(&SubSnapshot),
+        {
+            self.state.lock(|state| {
+                let state = state.borrow();
+                for sub in state.subscriptions.iter() {
+                    f(&sub.verif_snapshot());
+                }
+                // (an in-flight subscription already marked for removal is as good as gone)
+                if state.reporting_cancelled.is_none() {
+                    if let Some(sub) = state.reporting.as_ref() {
+                        f(&sub.verif_snapshot());
+                    }
+                }
+            })
+        }
+
         /// `(subscriptions_count, snapshot of the `reporting` slot, reporting_cancelled.is_some())`
         pub fn verif_slots(&self) -> (usize, Option<SubSnapshot>, bool) {
             self.state.lock(|state| {
